@@ -287,7 +287,16 @@ pub fn run(tier: Tier) -> i32 {
     for rc in [0u32, 4, 10, 32] {
         for chain in [Some(Chain::Direct), Some(Chain::EntriesOnly), None] {
             let mut s = Scenario::new(&format!("C03/through-driver/search/{:?}/rc{}", chain, rc));
+            let n_pre = if rc == 4 { 0 } else { 3 };
             let script = match &chain {
+                Some(Chain::Direct) => {
+                    let mut v = vec![Call::Start { marker: "sm".into(), chain: Chain::Direct, timeout: None, ctrl: false, opts: false, own_paging: false }];
+                    for _ in 0..=n_pre {
+                        v.push(Call::Next);
+                    }
+                    v.push(Call::Finish);
+                    v
+                }
                 Some(c) => vec![
                     Call::Start { marker: "sm".into(), chain: c.clone(), timeout: None, ctrl: false, opts: false, own_paging: false },
                     Call::Next,
@@ -296,12 +305,27 @@ pub fn run(tier: Tier) -> i32 {
                 None => vec![Call::Search { marker: "sm".into(), timeout: None }],
             };
             s.clients = vec![ClientSpec { script, free: 0 }];
-            s.plans.insert("sm".into(), Plan { rc, referral: rc == 10, res_ctrls: true, ..Default::default() });
+            // reference and intermediate messages precede the final result, which may carry its own referral
+            let items = if rc == 4 { vec![] } else { vec![ItemKind::R, ItemKind::I, ItemKind::R] };
+            let n_items = items.len();
+            s.plans.insert("sm".into(), Plan { rc, referral: rc == 10 || rc == 32, res_ctrls: true, items, ..Default::default() });
             s.oracles = Oracles { route: true, stream: true, ..Default::default() };
-            let path = match &chain {
-                Some(_) => vec![Action::Do(0), Action::PollD(1), Action::PollC(0), Action::Srv(1), Action::Do(0), Action::PollD(3), Action::PollC(0), Action::Do(0)],
-                None => vec![Action::Do(0), Action::PollD(1), Action::PollC(0), Action::Srv(1), Action::PollD(3), Action::PollC(0)],
-            };
+            let mut path = vec![Action::Do(0), Action::PollD(1), Action::PollC(0)];
+            for _ in 0..=n_items {
+                path.push(Action::Srv(1));
+            }
+            match &chain {
+                Some(Chain::Direct) => {
+                    // the first next() waits for the driver; the others find their item queued; then finish()
+                    path.extend([Action::Do(0), Action::PollD(3), Action::PollC(0)]);
+                    for _ in 0..n_items {
+                        path.push(Action::Do(0));
+                    }
+                    path.push(Action::Do(0));
+                }
+                Some(_) => path.extend([Action::Do(0), Action::PollD(3), Action::PollC(0), Action::Do(0)]),
+                None => path.extend([Action::PollD(3), Action::PollC(0)]),
+            }
             let o = run_path(&Arc::new(s.clone()), &path, false);
             lane_b += 1;
             for (k, d) in &o.viol {
